@@ -42,8 +42,8 @@ EXTRA = {
     'C12': 'Also: overrides in named zones (advances only where wall-clock '
     'and exact arithmetic agree), utcnow(with_timezone=True), margins '
     'beyond the representable range.',
-    'C13': 'Also: watches that are copied / pickled (and forks: copy and '
-    'original both in use), two watches at once, a clock read that raises, '
+    'C13': 'Also: watches that travel (copy / deepcopy / pickle replacing '
+    'the original), two watches at once, a clock read that raises, '
     'integer (2^60) and Fraction clocks, deadlines beyond 2^53.',
     'C20': 'Also: failures that are not OSErrors, every algorithm in '
     'hashlib.algorithms_available.',
